@@ -31,6 +31,8 @@ def shards(tier):
         out.append({"fmt": "raw", "n": 2, "bits": 10, "subdiv": 1})
         out.append({"fmt": "quicklogger", "n": 2, "bits": 10, "subdiv": 1})
         out.append({"fmt": "raw", "n": 2, "bits": 12, "nsets": 2})
+        out.append({"fmt": "raw", "n": 2, "bits": 12, "restart": 1})
+        out.append({"fmt": "quicklogger", "n": 1, "bits": 12, "restart": 1})
     else:
         for fmt in ("raw", "json", "quicklogger"):
             for n in (0, 1, 2, 3, 4):
@@ -40,13 +42,15 @@ def shards(tier):
                 out.append({"fmt": fmt, "n": 3, "bits": 16, "pause": pz})
             out.append({"fmt": fmt, "n": 3, "bits": 14, "nsets": 2})
             out.append({"fmt": fmt, "n": 2, "bits": 16, "nsets": 2, "subdiv": 1})
+            out.append({"fmt": fmt, "n": 2, "bits": 16, "restart": 1})
+            out.append({"fmt": fmt, "n": 3, "bits": 14, "restart": 1, "subdiv": 1})
     return out
 
 
 def obligations(tier):
     return [Obligation("every_interleaving_writes_each_message_once_in_order", "harness.c17_logger", "log", shards(tier), cond_timeout=900, path_timeout=120,
                        reach="log_reach", reach_shards=[{"fmt": "raw", "n": 2, "bits": 12}], encoded=ENC,
-                       bounds="0-3 messages (4 in thorough), 1-2 data sets, raw/json/quicklogger formatters, pause/resume around one message, flush and subdivision deadlines before any message; <= 12-14 (quick) / 16-20 (thorough) scheduling decisions between the recorder and the writer thread",
+                       bounds="0-3 messages (4 in thorough), 1-2 data sets, optionally a second recording on the same collection/data-set objects after a stop, raw/json/quicklogger formatters, pause/resume around one message, flush and subdivision deadlines before any message; <= 12-14 (quick) / 16-20 (thorough) scheduling decisions between the recorder and the writer thread",
                        symbolic="the schedule bits, the per-message flush-deadline and subdivision-deadline bits")]
 
 
